@@ -125,6 +125,56 @@ class _FInfo:
         return getattr(self._real, k)
 
 
+class _Spectrum:
+    """rfft(x, n) of a symbolic real sequence, kept as the zero-padded / truncated sequence itself: the only thing the code under analysis does
+    with it is |.|^2 followed by irfft, which is the circular autocorrelation of that sequence (correlation theorem; FFT numerics are trusted)"""
+    def __init__(self, x, n, stage='rfft'):
+        self.x, self.n, self.stage = x, n, stage
+
+    def __abs__(self):
+        if self.stage != 'rfft':
+            raise Realize('abs of a %s spectrum' % self.stage)
+        return _Spectrum(self.x, self.n, 'abs')
+
+    def __pow__(self, k):
+        if self.stage != 'abs' or k != 2:
+            raise Realize('only |rfft|**2 is modelled')
+        return _Spectrum(self.x, self.n, 'power')
+
+
+def _rfft(a, n=None, *args, **kw):
+    arr = _np.asarray(a)
+    if arr.dtype != object or args or kw:
+        return _np.fft.rfft(a, n, *args, **kw)
+    if arr.ndim != 1:
+        raise Realize('rfft of a %d-d symbolic array' % arr.ndim)
+    n = len(arr) if n is None else int(n)
+    x = [arr[i] if i < len(arr) else 0 for i in range(n)]
+    return _Spectrum(x, n)
+
+
+def _irfft(a, n=None, *args, **kw):
+    if isinstance(a, _np.ndarray) and a.dtype == object and a.shape == ():
+        a = a[()]
+    if not isinstance(a, _Spectrum):
+        return _np.fft.irfft(a, n, *args, **kw)
+    if a.stage != 'power' or args or kw:
+        raise Realize('irfft of a %s spectrum' % a.stage)
+    P = a.n
+    m = P // 2 + 1                      # number of rfft outputs
+    nout = 2 * (m - 1) if n is None else int(n)
+    if nout != P:
+        # odd transform length read back with the default (even) length: not the autocorrelation any more
+        raise Realize('irfft output length %d for a length-%d transform is not modelled' % (nout, P))
+    out = _np.empty(P, dtype=object)
+    for t in range(P):
+        tot = 0
+        for i in range(P):
+            tot = tot + a.x[i] * a.x[(i + t) % P]
+        out[t] = tot
+    return _sa(out)
+
+
 class NPShim(types.ModuleType):
     def __init__(self, base=_np, sym_finfo=True):
         super().__init__('np_shim')
@@ -135,6 +185,13 @@ class NPShim(types.ModuleType):
 
     def __getattr__(self, k):
         return getattr(self.__dict__['_base'], k)
+
+    @property
+    def fft(self):
+        ns = types.SimpleNamespace(**{k: getattr(_np.fft, k) for k in dir(_np.fft) if not k.startswith('_')})
+        ns.rfft = _rfft
+        ns.irfft = _irfft
+        return ns
 
     @property
     def linalg(self):
@@ -343,6 +400,20 @@ class NPShim(types.ModuleType):
                     return isinstance(v, (float, int, _np.floating, _np.integer)) and not isinstance(v, bool)
                 if out.size and all(isnum(v) for v in out.ravel()):
                     return out.astype(type(out.ravel()[0]))
+                if out.size and isinstance(first, (int, _np.integer)) and not isinstance(first, bool) and not vkw.get('otypes'):
+                    # integer first result: numpy makes an integer array and truncates every later result
+                    for idx, v in _np.ndenumerate(out):
+                        if isinstance(v, (int, _np.integer)):
+                            continue
+                        if hasattr(v, 'value') and not isinstance(v, SV):
+                            v = v.value
+                        if isinstance(v, SV):
+                            out[idx] = core.fn('trunc', v)      # opaque: the truncated value is some other number
+                        elif isinstance(v, (complex, _np.complexfloating)):
+                            raise TypeError("int() argument must be a string, a bytes-like object or a real number, not 'complex'")
+                        else:
+                            out[idx] = int(v)
+                    return out
                 if out.size and (isnum(first) or isinstance(first, SV)) and not vkw.get('otypes'):
                     for idx, v in _np.ndenumerate(out):
                         if isnum(v) or isinstance(v, SV):
